@@ -76,6 +76,12 @@ def pool_batch(acc, batch, **kw):
     poolcheck.pool_batch(acc, batch, **kw)
 
 
+def socket_batch(acc, batch):
+    from mc import sockettier
+
+    sockettier.socket_batch(acc, batch)
+
+
 def run(ctx):
     import mc.checks.c14 as me
 
@@ -89,11 +95,24 @@ def run(ctx):
     longer = [s for s in scs if len(s["mseq"]) > 1]
     ctx.pmap(me, "pool_batch", short, chunk=1, prop=ID, bound=1 if quick else 2)
     ctx.pmap(me, "pool_batch", longer, chunk=1, prop=ID, bound=0 if quick else 1)
-    ctx.traces_validated = ctx.acc.extra["executions"]
+    from mc import sockettier
+
+    seqs = sockettier.sequences(1 if quick else 2)
+    if quick:
+        seqs += [(("garbage", b), "close") for b in sockettier.M_BYTES] + [((a, "states"), "reset") for a in sockettier.M_BYTES]
+    ctx.pmap(me, "socket_batch", seqs, chunk=max(4, len(seqs) // 16))
+    ctx.traces_validated = ctx.acc.extra["traces_validated"]
+    ctx.notes.setdefault("coverage_extra", {})["real_socket_sequences"] = len(seqs)
     ctx.rule = "scenario = sequence of M actions (21-action alphabet) next to fixed H and N scripts; all interleavings of client operations and process exits; non-trivial = distinct scenario"
     ctx.bound = dict(scenarios=len(scs), m_actions=len(M_ACTIONS), m_len=1 if quick else 2, deviations="1 for |M|<=1, 0 for |M|=2" if quick else "2 for |M|<=1, 1 for |M|=2", cores=2)
     ctx.assumptions = ["connections are asyncio.StreamReader objects fed by the explorer + recording writers (real sockets: real-socket tier)", "shutdown is an administrative request, not misbehaviour"]
 
 
 def replay(case):
+    if case.get("kind") == "socket":
+        from mc.runner import Acc
+
+        acc = Acc()
+        socket_batch(acc, [(tuple(case["seq"]), case["ending"])])
+        return acc.violations
     return poolcheck.replay_pool(case, ID)
